@@ -108,7 +108,14 @@ def run(ctx):
     rc, lines, err = ctx.run_driver(exe, ["psplit"], [trip], timeout=300)
     impl = lines[0].split() if lines else []
     try:
-        model = ctx.coq_eval_list("From OTV Require Import PsplitModel.", "run_psplit [%s]" % "; ".join(map(str, trip)))
+        model = []
+        CH = 3 * 1000                    # one coqc per 1000 triples: a literal list much longer than that overflows coqc's stack
+        for off in range(0, len(trip), CH):
+            part = trip[off:off + CH]
+            got_part = ctx.coq_eval_list("From OTV Require Import PsplitModel.", "run_psplit [%s]" % "; ".join(map(str, part)))
+            if len(got_part) != len(part) // 3:
+                raise RuntimeError("PsplitModel returned %d results for %d cases" % (len(got_part), len(part) // 3))
+            model += got_part
     except Exception as e:
         ctx.broken("PsplitModel evaluation", str(e))
         model = []
